@@ -43,6 +43,7 @@ class Profile:
         self.captures_inspected = True  # may expressions inspect captured text?
         self.partial_prefix = ""  # e.g. "snippets/"
         self.partial_suffix = ""  # e.g. ".html"
+        self.partial_interrupts = False  # break/continue inside partial bodies (C03 only)
         self.__dict__.update(kw)
 
 
@@ -391,6 +392,9 @@ class Gen:
             s = self.stmt(depth, env, loop, isolated, allow_text)
             if s is None:
                 continue
+            if isinstance(s, list):  # a family of statements (e.g. loops sharing state)
+                out.extend(s)
+                continue
             if isinstance(s, M.Text) and out and isinstance(out[-1], M.Text):
                 continue
             out.append(s)
@@ -415,7 +419,7 @@ class Gen:
         deep = depth >= self.p.max_depth
         kinds = ["text"] * 5 + ["out"] * 6 + ["assign"] * 3 + ["incr", "cycle", "raw", "comment", "capture"]
         if not deep:
-            kinds += ["if"] * 4 + ["for"] * 4 + ["case"] * 2 + ["with"]
+            kinds += ["if"] * 4 + ["for"] * 4 + ["case"] * 2 + ["with"] + ["forseq"]
             if self.p.liquid_tag:
                 kinds += ["liquid"]
             if self.p.partials and self.n_partials < 3:
@@ -522,7 +526,35 @@ class Gen:
             elif e2[var] == "pair" and r.random() < 0.6:
                 b.insert(0, M.Out(M.Filt(M.Var(var, [0]))))
             orelse = self.maybe_blank_body(depth + 1, env, loop, isolated) if r.random() < 0.35 else None
+            if orelse is None and r.random() < 0.25 and all(isinstance(x, (M.Text, M.Assign, M.Comment)) for x in b):
+                orelse = [M.Text(r.choice(["empty", "none", "-"]))]  # blank body, printing else
             return M.For(var, it, b, limit, offset, rev, orelse)
+        if k == "forseq":
+            # 2-4 consecutive loops over the same (variable, iterable): `offset: continue`
+            # starts where the previous such loop stopped selecting, whatever it was
+            ty = r.choice(["ints", "strs"])
+            it = self.var_of(ty, env) or M.Var(POOL[ty][0])
+            var = r.choice(["i", "x"])
+            e2 = dict(env)
+            e2[var] = "int" if ty == "ints" else "str"
+            seq: list[Any] = []
+            for j in range(r.randint(2, 4)):
+                limit = M.Lit(r.choice([0, 0, 1, 2, 3])) if r.random() < 0.6 else None
+                offset: Any = None
+                if j and r.random() < 0.7:
+                    offset = "continue"
+                elif r.random() < 0.3:
+                    offset = M.Lit(r.choice([0, 1, 2]))
+                b: list[Any] = [M.Out(M.Filt(M.Var(var)))]
+                if r.random() < 0.4:
+                    b.append(M.Text(r.choice([",", " ", "-"])))
+                if r.random() < 0.2:
+                    b.append(M.If([(self.cond(e2, True, 1), [M.Break()])], None))
+                orelse = [M.Text("none")] if r.random() < 0.4 else None
+                seq.append(M.For(var, it, b, limit, offset, r.random() < 0.2, orelse))
+                if r.random() < 0.3:
+                    seq.append(M.Text(r.choice(["|", " / ", "\n"])))
+            return seq
         if k == "with":
             binds = []
             e2 = dict(env)
@@ -604,7 +636,8 @@ class Gen:
                 kwargs.append((nm, self.prim(ty, env, loop)))
                 e2[nm] = ty
             self.partials[name] = []  # reserve the name
-            pb = self.body(depth + 1, e2, False, tag == "render" or isolated, n=r.randint(1, 4))
+            pb = self.body(depth + 1, e2, bool(self.p.partial_interrupts), tag == "render" or isolated,
+                           n=r.randint(1, 4))
             if mode:
                 pb.append(M.Out(M.Filt(M.Var(alias or name))))
             if tag == "render" and mode == "for" and r.random() < 0.5:
